@@ -48,6 +48,17 @@ func canonPTR(a netip.Addr) string {
 	return sb.String()
 }
 
+// nibblePTR is the ip6.arpa spelling of the 16 bytes of a, without unmapping.
+func nibblePTR(a netip.Addr) string {
+	b := a.As16()
+	var sb strings.Builder
+	for i := 15; i >= 0; i-- {
+		fmt.Fprintf(&sb, "%x.%x.", b[i]&0xf, b[i]>>4)
+	}
+	sb.WriteString("ip6.arpa")
+	return sb.String()
+}
+
 // specOctet: decimal 0..255 without leading zeros.
 func specOctet(l string) (v int, ok bool) {
 	if len(l) < 1 || len(l) > 3 || (len(l) > 1 && l[0] == '0') {
@@ -160,7 +171,13 @@ func evalC04(c string) Result {
 			return Result{Impl: rE(err), Direct: okIf(isAddrErrorFor(err, trimOneDot(s)), "not-addrerror", "IPFromReversedAddr(%q) rejected with %T %v", s, err, err), Class: cl}
 		}
 		want := canonPTR(a)
-		return Result{Impl: "ok:" + showAddrGo(a), Direct: okIf(asciiLowerGo(trimOneDot(s)) == want && !a.Is4In6() && a.Zone() == "", "accepts-noncanonical", "IPFromReversedAddr(%q)=%v whose canonical name is %q", s, a, want), Class: "accept"}
+		direct := okIf(asciiLowerGo(trimOneDot(s)) == want && a.Zone() == "", "accepts-noncanonical", "IPFromReversedAddr(%q)=%v whose canonical name is %q", s, a, want)
+		if a.Is4In6() && asciiLowerGo(trimOneDot(s)) == nibblePTR(a) {
+			// the ip6.arpa spelling of an IPv4-mapped address: accepted and returned as a
+			// 4in6 Addr, whose canonical name (mapped addresses are encoded as IPv4) differs
+			direct = fail("4in6-ip6arpa", "IPFromReversedAddr(%q)=%v whose canonical name is %q", s, a, want)
+		}
+		return Result{Impl: "ok:" + showAddrGo(a), Direct: direct, Class: "accept"}
 	case "C04.torev":
 		ip := net.IP(unhx(f[1]))
 		got, err := netutil.IPToReversedAddr(ip)
@@ -330,7 +347,7 @@ func genC04(rng *rand.Rand, tier string) (cases []string) {
 				// near-canonical: start from a real canonical name and mutate it
 				b := genIPBytes(rng)
 				if a, ok := netip.AddrFromSlice(b); ok {
-					s = mutate(rng, pick(rng, canonPTR(a), strings.ToUpper(canonPTR(a)), canonPTR(a)+"."), "0123456789abcdef.+- İK\xff")
+					s = mutate(rng, pick(rng, canonPTR(a), strings.ToUpper(canonPTR(a)), canonPTR(a)+".", nibblePTR(a)), "0123456789abcdef.+- İK\xff")
 				}
 			}
 			cases = append(cases, arpaCase("C04.fromrev", s))
